@@ -34,15 +34,26 @@ var purePackages = map[string]string{
 }
 
 var pureMethods = map[string]string{
-	"(*bytes.Buffer).Bytes":  "returns the unread portion without consuming it",
-	"(*bytes.Buffer).Len":    "reads",
-	"(*bytes.Buffer).Cap":    "reads",
-	"(*bytes.Buffer).String": "reads",
-	"(*bytes.Reader).Len":    "reads",
-	"(*bytes.Reader).Size":   "reads",
-	"(net.Conn).RemoteAddr":  "reads",
-	"(net.Conn).LocalAddr":   "reads",
+	"(*bytes.Buffer).Bytes":                 "returns the unread portion without consuming it",
+	"(*bytes.Buffer).Len":                   "reads",
+	"(*bytes.Buffer).Cap":                   "reads",
+	"(*bytes.Buffer).String":                "reads",
+	"(*bytes.Reader).Len":                   "reads",
+	"(*bytes.Reader).Size":                  "reads",
+	"(net.Conn).RemoteAddr":                 "reads",
+	"(net.Conn).LocalAddr":                  "reads",
+	"(encoding/binary.bigEndian).Uint16":    "reads its argument",
+	"(encoding/binary.bigEndian).Uint32":    "reads its argument",
+	"(encoding/binary.bigEndian).Uint64":    "reads its argument",
+	"(encoding/binary.littleEndian).Uint16": "reads its argument",
+	"(encoding/binary.littleEndian).Uint32": "reads its argument",
+	"(encoding/binary.littleEndian).Uint64": "reads its argument",
+	"encoding/binary.Size":                  "inspects the type",
 }
+
+// value-receiver methods of these packages' types read their receiver and arguments (net.IP.To4, Equal,
+// Mask, String; time.Time arithmetic)
+var pureValueMethodPkgs = map[string]bool{"net": true, "time": true, "net/netip": true}
 
 // destination-writing functions: only the listed argument (-1 = receiver) is written; all others are read.
 var writesOnlyArg = map[string]int{
@@ -342,10 +353,16 @@ func (pw *pureWalk) scan(fi *FuncInfo) {
 			}
 		}
 		_, purePkg := purePackages[f.Pkg().Path()]
+		pureMethod := false
+		if _, listed := pureMethods[name]; listed {
+			purePkg, pureMethod = true, true
+		}
 		if sig.Recv() != nil {
-			purePkg = false
-			if _, pure := pureMethods[name]; pure {
-				purePkg = true
+			purePkg = pureMethod
+			if _, isPtr := sig.Recv().Type().Underlying().(*types.Pointer); !isPtr && pureValueMethodPkgs[f.Pkg().Path()] {
+				if _, isIface := sig.Recv().Type().Underlying().(*types.Interface); !isIface {
+					purePkg, pureMethod = true, true
+				}
 			}
 			// methods with value receivers of basic/slice types (net.IP.To4) only read their receiver;
 			// their arguments are treated like any other
@@ -360,7 +377,7 @@ func (pw *pureWalk) scan(fi *FuncInfo) {
 				}
 				continue
 			}
-			if purePkg && sig.Recv() == nil {
+			if purePkg && (sig.Recv() == nil || pureMethod) {
 				continue
 			}
 			exposed = append(exposed, fmt.Sprintf("argument %d %s", i, types.ExprString(a)))
